@@ -100,7 +100,7 @@ func deepEq(a, b reflect.Value, path string, relax bool, seen map[visit]bool, de
 		if a.IsNil() {
 			return ""
 		}
-		return deepEq(a.Elem(), b.Elem(), path+".(" + a.Elem().Type().String() + ")", relax, seen, depth+1)
+		return deepEq(a.Elem(), b.Elem(), path+".("+a.Elem().Type().String()+")", relax, seen, depth+1)
 	case reflect.Slice:
 		if a.IsNil() != b.IsNil() && !(relax && a.Len() == 0 && b.Len() == 0) {
 			return fmt.Sprintf("%s: nil slice %v vs %v", path, a.IsNil(), b.IsNil())
